@@ -46,6 +46,7 @@ var profiles = map[string]profile{
 	"C04": {name: "C04", wIndex: 4, wFilter: 12, wBulk: 3, wRollback: 1, maxSteps: 26},
 	"C06": {name: "C06", wIndex: 2, wReplica: 8, wKey: 1, wSort: 1, wBulk: 2, wRollback: 1, maxSteps: 30},
 	"C07": {name: "C07", wIndex: 2, wSnapshot: 8, wKey: 1, wSort: 1, wBulk: 3, wRollback: 1, maxSteps: 30},
+	"C09": {name: "C09", wBulk: 3, wReplica: 1, wSnapshot: 1, wRollback: 1, wFilter: 1, maxSteps: 34},
 	"C11": {name: "C11", wBulk: 6, wRollback: 1, wFilter: 1, maxSteps: 40},
 	"C12": {name: "C12", wKey: 100, wRollback: 2, wIndex: 1, wSnapshot: 1, wReplica: 1, maxSteps: 30},
 	"C15": {name: "C15", wReplica: 2, wRollback: 3, wFailIns: 1, wBulk: 2, wDropCol: 3, wIndex: 1, maxSteps: 26},
@@ -203,7 +204,7 @@ func (g *gen) writeActionAt(off uint32, known bool, allowMerge bool) string {
 	}
 	c := g.cols[g.r.Intn(len(g.cols))]
 	key := fmt.Sprintf("%d|%s", off, c.name)
-	merge := allowMerge && g.r.Intn(3) == 0
+	merge := allowMerge && (g.r.Intn(3) == 0 || (g.p.name == "C09" && g.r.Intn(2) == 0))
 	if !g.p.dirty {
 		if known && g.txnRes[key] {
 			return ""
@@ -372,6 +373,14 @@ func (g *gen) setup() {
 			}
 		}
 	}
+	// merge-heavy profile: one column per merge family whose result aliases / resizes / folds
+	if g.p.name == "C09" {
+		g.addCol(genCol{"st", "string", "tail"})
+		g.addCol(genCol{"sc", "string", "concat"})
+		g.addCol(genCol{"rc", "record", "concat"})
+		g.addCol(genCol{"nd", "int64", "dbl"})
+		g.addCol(genCol{"ns", "uint16", ""})
+	}
 	// the deadline column: the built-in int64 column "expire" (what SetTTL stores into and Extend merges into),
 	// written and merged like any other column so that its values go through commit, replay and snapshot
 	if g.p.name == "C17" {
@@ -410,7 +419,7 @@ func (g *gen) addRandomCol() {
 	case x < 12:
 		c = genCol{name, "bool", ""}
 	case x < 16:
-		c = genCol{name, "string", []string{"", "concat", "keep"}[r.Intn(3)]}
+		c = genCol{name, "string", []string{"", "concat", "keep", "tail"}[r.Intn(4)]}
 	case x < 18:
 		c = genCol{name, "enum", ""}
 	default:
